@@ -28,7 +28,7 @@ func (e *Exec) newErr(name string) *IfaceV { return e.errIface(&ErrObj{name: nam
 func (e *Exec) errMethod(eo *ErrObj, name string, args []Value) Value {
 	switch name {
 	case "Error", "String":
-		return e.constBytes("<error:"+eo.name+">", true)
+		return e.constBytes("<error:"+errText(eo)+">", true)
 	case "Unwrap":
 		if eo.wrap != nil {
 			return e.errIface(eo.wrap)
@@ -72,16 +72,38 @@ func errChainHas(e, target *ErrObj) bool {
 	return false
 }
 
-func (e *Exec) wrapErr(v Value, how string) Value {
+func (e *Exec) wrapErr(v Value, how string, msg Value) Value {
 	iv := v.(*IfaceV)
 	if iv.t == nil {
 		return e.nilErr()
 	}
+	// the description given to Wrap/Wrapf (its format string) is kept: it is what distinguishes the
+	// response texts of two rejections that share a registered root
+	text := ""
+	if s, ok := msg.(*SliceV); ok {
+		if str, ok := e.concreteString(s); ok {
+			text = str
+		}
+	}
 	eo := errRoot(v)
 	if eo == nil {
-		return e.newErr(how)
+		return e.errIface(&ErrObj{name: how, msg: text})
 	}
-	return e.errIface(&ErrObj{name: eo.name, wrap: eo})
+	return e.errIface(&ErrObj{name: eo.name, wrap: eo, msg: text})
+}
+
+// errText is the modelled text of an error: the chain of descriptions down to the root's name.
+func errText(eo *ErrObj) string {
+	var parts []string
+	for x := eo; x != nil; x = x.wrap {
+		if x.msg != "" {
+			parts = append(parts, x.msg)
+		}
+		if x.wrap == nil {
+			parts = append(parts, x.name)
+		}
+	}
+	return strings.Join(parts, ": ")
 }
 
 func (e *Exec) bigOf(v Value, what string) *BigV {
@@ -119,7 +141,7 @@ func (e *Exec) intrinsic(name string, fn *ssa.Function, args []Value) (Value, bo
 	switch name {
 	// ---- errors / formatting ----
 	case "cosmossdk.io/errors.Wrap", "cosmossdk.io/errors.Wrapf", "github.com/pkg/errors.Wrap", "github.com/pkg/errors.Wrapf":
-		return e.wrapErr(args[0], "wrapped"), true
+		return e.wrapErr(args[0], "wrapped", args[1]), true
 	case "cosmossdk.io/errors.Register", "cosmossdk.io/errors.RegisterWithGRPCCode":
 		desc := "registered"
 		if s, ok := args[len(args)-1].(*SliceV); ok {
@@ -131,6 +153,13 @@ func (e *Exec) intrinsic(name string, fn *ssa.Function, args []Value) (Value, bo
 	case "(*cosmossdk.io/errors.Error).Error":
 		return e.constBytes("<error>", true), true
 	case "errors.New", "fmt.Errorf", "google.golang.org/grpc/status.Error", "google.golang.org/grpc/status.Errorf":
+		for _, a := range args {
+			if sv, ok := a.(*SliceV); ok {
+				if str, ok := e.concreteString(sv); ok {
+					return e.errIface(&ErrObj{name: name, msg: str}), true
+				}
+			}
+		}
 		return e.newErr(name), true
 	case "fmt.Sprintf", "fmt.Sprint", "fmt.Sprintln":
 		return e.constBytes("<fmt>", true), true
@@ -190,7 +219,7 @@ func (e *Exec) intrinsic(name string, fn *ssa.Function, args []Value) (Value, bo
 		return e.toLower(e.asBytes(args[0], name)), true
 	case "strings.ToUpper":
 		e.fail("strings.ToUpper not modelled")
-	case "strings.EqualFold":
+	case "strings.EqualFold", "bytes.EqualFold":
 		return e.equalFold(e.asBytes(args[0], name), e.asBytes(args[1], name)), true
 	case "strings.TrimSpace":
 		// exact for ASCII strings (case split on the length and on the number of leading/trailing
@@ -391,10 +420,24 @@ func (e *Exec) intrinsic(name string, fn *ssa.Function, args []Value) (Value, bo
 			e.callValue(args[1], nil)
 		}
 		return nil, true
-	case "(*sync.Mutex).Lock", "(*sync.Mutex).Unlock", "(*sync.RWMutex).Lock", "(*sync.RWMutex).Unlock", "(*sync.RWMutex).RLock", "(*sync.RWMutex).RUnlock":
+	case "(*sync.Mutex).Lock", "(*sync.RWMutex).Lock", "(*sync.RWMutex).RLock":
+		e.lockDepth++
 		return nil, true
+	case "(*sync.Mutex).Unlock", "(*sync.RWMutex).Unlock", "(*sync.RWMutex).RUnlock":
+		if e.lockDepth > 0 {
+			e.lockDepth--
+		}
+		return nil, true
+	case "github.com/ethereum/go-ethereum/crypto.NewKeccakState":
+		// a Keccak-256 sponge as the list of what was written since the last Reset (sequential model)
+		return &IfaceV{t: modelDynType, v: &ModelObj{kind: "keccakstate", global: e.inInit, data: map[string]Value{"buf": e.constBytes("", false)}}}, true
 	case "(*sync.Mutex).TryLock", "(*sync.RWMutex).TryLock":
 		return tb.tt, true
+	case "(*sync.WaitGroup).Add", "(*sync.WaitGroup).Done":
+		return nil, true
+	case "(*sync.WaitGroup).Wait":
+		e.joinGoroutines()
+		return nil, true
 	}
 	if strings.HasPrefix(name, "(*math/big.Int).") {
 		return e.bigMethod(strings.TrimPrefix(name, "(*math/big.Int)."), args), true
@@ -472,7 +515,7 @@ func (e *Exec) bigMethod(m string, args []Value) Value {
 			e.panicIf(tb.Not(tb.Ult(abs, tb.BVb(pow2(8*n), bigW))), "math/big: buffer too small to fit value")
 		}
 		if n > 0 && buf.a.global {
-			e.noteGlobalWrite("FillBytes")
+			e.noteGlobalWrite("FillBytes", buf.a)
 		}
 		for i := 0; i < n; i++ {
 			lo := 8 * (n - 1 - i)
